@@ -109,6 +109,7 @@ class Run:
         self.rl = ReconnectLogic(client=self.cli, on_connect=on_connect, on_disconnect=on_disconnect, on_connect_error=on_connect_error, name="dev")
         self.stop_task = None
         self.timer_seen = None
+        self.last_label = None
         self.t0 = loop.time()
         self.attempt_times = []
 
@@ -142,8 +143,8 @@ class Run:
                 out.append("adv")
         elif t is None:
             out.append("adv")
-        if rl._zc_listening:
-            out += ["record", "record"]
+        # records arrive whether or not the manager listens (whether they reach it is the manager's business)
+        out += ["record", "record"] if self.aiozc.zeroconf.listeners else ["record"]
         if cli.pending is not None:
             k = cli.pending[0]
             if k == "start":
@@ -185,13 +186,16 @@ class Run:
                 t = int(exact[0][4:])
             labels = [f"adv:{t}"]
             loop._vt = self.t0 - simnet.CLOCK_BASE + t / U
-        elif label == "record":
+        elif label.startswith("record"):
             import zeroconf
             from zeroconf import DNSPointer, DNSAddress
             from zeroconf.const import _TYPE_PTR, _TYPE_A, _CLASS_IN
             kind = rng.random()
             if exact is not None:
-                kind = 0.0 if exact else 0.9
+                kind = 0.9 if label == "record:other" else 0.0
+            matching = kind < 0.7
+            self.last_label = "record" if matching else "record:other"
+            labels = ["record"] if (matching and self.aiozc.zeroconf.listeners) else []
             if kind < 0.4:
                 rec = DNSPointer("_esphomelib._tcp.local.", _TYPE_PTR, _CLASS_IN, 1000, "dev._esphomelib._tcp.local.")
             elif kind < 0.7:
@@ -199,8 +203,9 @@ class Run:
             else:
                 rec = rng.choice([DNSPointer("_esphomelib._tcp.local.", _TYPE_PTR, _CLASS_IN, 1000, "other._esphomelib._tcp.local."),
                                   DNSAddress("other.local.", _TYPE_A, _CLASS_IN, 1000, b"\x0a\x00\x00\x02")])
-                labels = []            # a non-matching record: nothing may happen
-            rl.async_update_records(None, 0.0, [zeroconf.RecordUpdate(rec, None)])
+            # records reach the manager through the listener it registered with zeroconf - and only then
+            for listener in list(self.aiozc.zeroconf.listeners):
+                listener.async_update_records(None, 0.0, [zeroconf.RecordUpdate(rec, None)])
         elif label.startswith("startdone") or label.startswith("finishdone"):
             r = label.split(":")[1]
             fut = cli.pending[1]
@@ -234,8 +239,9 @@ def gen_and_run(rng, length):
                     break
                 label = rng.choice(en)
                 n_att = len(run.cli.attempt_times)
+                run.last_label = None
                 mlabels, evs = await run.do(label, rng)
-                steps.append((label, mlabels, evs, run.state(), run.cli.attempt_times[n_att:]))
+                steps.append((run.last_label or label, mlabels, evs, run.state(), run.cli.attempt_times[n_att:]))
             final = {"max_in_flight": run.cli.max_in_flight, "closed_app_zc": run.aiozc.closed, "listeners": len(run.aiozc.zeroconf.listeners)}
             if run.stop_task is not None and not run.stop_task.done():
                 run.stop_task.cancel()
@@ -256,8 +262,9 @@ def run_recorded(recorded):
             run = Run(loop)
             steps = []
             for label, mls in recorded:
+                run.last_label = None
                 mlabels, evs = await run.do(label, rng, exact=mls)
-                steps.append((label, mlabels, evs, run.state(), []))
+                steps.append((run.last_label or label, mlabels, evs, run.state(), []))
             for t in asyncio.all_tasks(loop):
                 if t is not asyncio.current_task():
                     t.cancel()
@@ -297,8 +304,33 @@ def predicate(steps, final):
     stopped_after = None
     expect_attempt_at = None
     failures = 0
+    started = stopped = in_flight = alive = False
+    last_outcome = None            # of the latest attempt / session: "E" failed attempt, "C" connected, "D" session ended
     for i, (label, mlabels, evs, state, att) in enumerate(steps):
         before = now
+        # waiting to retry = started, not stopped, nothing in flight, no session, and the latest attempt failed
+        # (the 5 s cool-down after an expected disconnect is a deliberate quiet period, not a wait for the device)
+        waiting_before = started and not stopped and not in_flight and not alive and last_outcome == "E"
+        if label == "record" and waiting_before and "A" not in evs:
+            v.append(("C18/record-ignored", f"a matching mDNS record arrived while the manager was waiting to retry (event {i}) and no attempt was started"))
+        for e in evs:
+            if e in ("E", "C"):
+                last_outcome = e
+            elif e in ("D0", "D1"):
+                last_outcome = "D"
+        if label == "start":
+            started, stopped = True, False
+        for e in evs:
+            if e == "A":
+                in_flight = True
+            elif e in ("E", "AC"):
+                in_flight = False
+            elif e == "C":
+                in_flight, alive = False, True
+            elif e in ("D0", "D1"):
+                alive = False
+            elif e == "S":
+                stopped = True
         for ml in mlabels:
             if ml.startswith("adv:"):
                 now = int(ml[4:])
@@ -331,7 +363,7 @@ def predicate(steps, final):
         failures = failures_after(failures, label, evs) if ("E" in evs or "C" in evs or label == "start") else failures
         if "D0" in evs and "A" not in evs and state.split(",")[1][0] == "0" and label.startswith("end"):
             v.append(("C18/unexpected-disconnect-no-retry", "no immediate attempt after an unexpected disconnect"))
-        if label == "record" and not mlabels and evs:
+        if label == "record:other" and evs:
             v.append(("C18/non-matching-record", f"a non-matching mDNS record caused {evs}"))
         if label == "record" and mlabels and state.startswith(("HANDSHAKING", "READY")) and "A" in evs:
             v.append(("C18/record-while-connected", "an mDNS record triggered an attempt while handshaking / connected"))
